@@ -440,6 +440,66 @@ for vec in pool:
                  {"stream": vec["s"], "text": text(vec["s"]), "expected_commands": vec["c"], "term": vec["t"], "tcp": res[2],
                   "how": "write these bytes to a connection of the server in arbitrary pieces"},
                  what="stream %s over TCP: %s %s" % (text(vec["s"]), res[1], res[2]))
+# (c) nothing is executed from the malformed part: a bulk header that declares FEWER bytes than the argument really has (so the
+# declared payload is not followed by CR LF: malformed by RespParser.tla's rule), with a complete command embedded at a line
+# boundary in the rest of the argument. Whatever the server does with the offending connection (error or close), neither the
+# malformed command nor the embedded one may take effect, and the commands before it are answered as usual.
+smuggle_checked = 0
+for i in range(40 if QUICK else 400):
+    if not live.srv.alive():
+        live.restart()
+    canary = b"canary-%d-%d" % (SEED, i)
+    other = b"other-%d-%d" % (SEED, i)
+    inner = server.encode([rng.choice([b"SET", b"set", b"RPUSH", b"SADD"]), canary, b"pwned"])
+    junk = bytes(rng.choice(b"abcxyz0123") for _ in range(rng.randint(1, 8)))
+    payload = junk + b"\r\n" + inner + rng.choice([b"", b"tail", b"\r\n"])
+    declared = rng.randint(0, len(junk) - 1)
+    k = rng.randint(0, 3)
+    prefix = [b"p%d-%d" % (i, j) for j in range(k)]
+    stream = b"".join(server.encode([b"PING", p]) for p in prefix) + b"*3\r\n$3\r\nSET\r\n$%d\r\n%s\r\n$%d\r\n" % (len(other), other, declared) + payload + b"\r\n"
+    c = live.srv.client(timeout=3.0)
+    got, closed = [], False
+    try:
+        try:
+            send_chunked(c.s, stream, rng)
+        except OSError:
+            pass
+        deadline = time.time() + 0.6
+        try:
+            while time.time() < deadline:
+                got.append(c.read_reply(timeout=max(0.05, deadline - time.time())))
+        except (ConnectionError, OSError) as e:
+            closed = not isinstance(e, socket.timeout)
+        except Exception:
+            closed = True
+    finally:
+        c.close()
+    smuggle_checked += 1
+    bad = live.check()
+    what = None
+    if bad:
+        what = (bad[0], bad[1])
+    else:
+        probe = live.srv.client(timeout=3.0)
+        try:
+            ex_c = probe.cmd("EXISTS", canary, timeout=3.0)
+            ex_o = probe.cmd("EXISTS", other, timeout=3.0)
+        finally:
+            probe.close()
+        if ex_c != (":", 0):
+            what = ("executed-from-malformed-part", "the command embedded in the rest of the malformed argument took effect (EXISTS %s = %r)" % (canary.decode(), ex_c))
+        elif ex_o != (":", 0):
+            what = ("executed-from-malformed-part", "the command with the malformed argument itself took effect (EXISTS %s = %r)" % (other.decode(), ex_o))
+        elif [x for x in got[:k]] != [("$", p) for p in prefix][:len(got[:k])] or (len(got) < k and not closed):
+            what = ("wrong-delivery", "the well-formed commands before the malformed one were not answered one by one: %r" % (got[:k + 1],))
+    if what:
+        v.report({"branch": "malformed.bulk.short-length.embedded-command", "kind": what[0], "detail": ""},
+                 {"stream": list(stream), "text": text(list(stream)), "replies": [repr(x) for x in got], "closed": closed,
+                  "how": "write these bytes to a connection, then EXISTS <canary> on another connection"},
+                 what="stream %s over TCP: %s" % (text(list(stream)), what[1]))
+        if what[0] in ("panic", "hang"):
+            live.restart()
+        break
 t_tcp = time.time() - v.t0 - t_build - t_b1
 
 # ------------------------------------------------------------------ 4. B2 random binary pipelines over TCP
